@@ -129,8 +129,13 @@ func writeAll(f *os.File, b []byte) {
 func snapshotNorm(dir string) map[string]string {
 	out := map[string]string{}
 	filepath.Walk(dir, func(p string, info os.FileInfo, err error) error {
-		if err != nil || info.IsDir() || info.Mode()&os.ModeSymlink != 0 {
+		if err != nil || info.IsDir() {
 			return nil
+		}
+		if info.Mode()&os.ModeSymlink != 0 {
+			if ti, err := os.Stat(p); err != nil || ti.IsDir() {
+				return nil
+			}
 		}
 		rel, _ := filepath.Rel(dir, p)
 		b, err := os.ReadFile(p)
@@ -153,9 +158,12 @@ func snapshot(dir string) map[string]string {
 		}
 		rel, _ := filepath.Rel(dir, p)
 		if info.Mode()&os.ModeSymlink != 0 {
-			t, _ := os.Readlink(p)
-			out[filepath.ToSlash(rel)] = "symlink:" + t
-			return nil
+			// like the library's recording without follow-symlink-dirs: a link to a
+			// directory contributes nothing, a link to a file the file's content
+			ti, err := os.Stat(p)
+			if err != nil || ti.IsDir() {
+				return nil
+			}
 		}
 		b, err := os.ReadFile(p)
 		if err != nil {
@@ -167,6 +175,29 @@ func snapshot(dir string) map[string]string {
 		return nil
 	})
 	return out
+}
+
+// rewriteSameSize replaces the content of a file by other bytes of the same
+// length and restores the modification time: the kind of change that only a
+// digest of the content reveals (size and mtime stay as they were).
+func rewriteSameSize(path string) {
+	st, err := os.Stat(path)
+	if err != nil {
+		return
+	}
+	b, err := os.ReadFile(path)
+	if err != nil || len(b) == 0 {
+		return
+	}
+	for i := range b {
+		if b[i] == 'x' {
+			b[i] = 'y'
+		} else if b[i] != '\n' && b[i] != '\r' {
+			b[i] = 'x'
+		}
+	}
+	os.WriteFile(path, b, st.Mode().Perm())
+	os.Chtimes(path, st.ModTime(), st.ModTime())
 }
 
 func appendLog(path string, v any) {
@@ -209,6 +240,8 @@ func inspect(args []string) {
 			os.WriteFile(parts[1], []byte(parts[2]), 0644)
 		case "delete":
 			os.Remove(parts[1])
+		case "samesize":
+			rewriteSameSize(parts[1])
 		case "exit":
 			exit, _ = strconv.Atoi(parts[1])
 		case "kill":
@@ -256,6 +289,8 @@ func fsop(args []string) {
 					os.WriteFile(sub[1], []byte(sub[2]), 0644)
 				case "delete":
 					os.Remove(sub[1])
+				case "samesize":
+					rewriteSameSize(sub[1])
 				case "say":
 					fmt.Println(sub[1])
 				case "sayerr":
